@@ -4,8 +4,11 @@ REG = dict(
         "level tables are parameters of the theorems; the harness computes them from the documented construction with the "
         "public helpers (utils.dkw_epsilon, scipy.stats.kstwo.ppf, beta interval/coverage functions, np.quantile, the "
         "generator's uniforms replayed from a cloned state) and the code's bands must equal the model built on them",
-        "monotonicity of kstwo.ppf / np.quantile / nestedness of scipy's beta intervals in the confidence: not proved; the "
-        "widening clause is compared on the code's outputs (same seed) and proved given level-wise ordered tables",
+        "widening with the confidence: proved unconditionally for dkw (dkw_band_widens_with_confidence for 0 <= c <= c' < 1 "
+        "with the closed-form radius, dkw_band_widens_up_to_confidence_one including c' = 1, the all-0 / all-1 tables of "
+        "epsilon = +inf); for ks / ld the monotonicity of kstwo.ppf / np.quantile / nestedness of scipy's beta intervals in "
+        "the confidence is not proved: the clause is compared on the code's outputs (same seed) and proved given level-wise "
+        "ordered tables",
         "IEEE-754 rounding of np.diff / cumsum: compared at 1e-12 (C03's tolerance)",
     ],
     assumptions=["finite observations (infinite bounds allowed)", "quantile levels within 1e-12 of a band level excluded"],
@@ -19,7 +22,9 @@ TEXT = dict(
           "increasing maps of sample, bounds and query; F <= G implies Q_G <= Q_F for arbitrary distribution functions (tuning-curve "
           "band inversion, any CDF inside the band). Tied to the code per run: all four methods, every band cdf at every atom/"
           "neighbour/midpoint/±inf against the exact model, quantile curves, bracket, pt == EmpiricalDistribution, permutation, "
-          "monotone maps, widening.",
-    note="Proved on the model; the level tables (dkw/ks/ld) are parameters computed by the harness from public helpers. Not proved: "
-         "monotonicity of scipy's quantile black boxes in the confidence (compared), float rounding (1e-12).",
+          "monotone maps, widening. For dkw, raising the confidence never narrows the band is a theorem with no hypothesis "
+          "on the tables (radius sqrt(log(2/(1-c))/(2n)) monotone in c; confidence 1 = the trivial band).",
+    note="Proved on the model; the level tables (dkw/ks/ld) are parameters computed by the harness from public helpers. Widening with "
+         "the confidence is unconditional for dkw. Not proved: monotonicity of scipy's quantile black boxes in the confidence "
+         "for ks / ld (compared), float rounding (1e-12).",
 )
